@@ -63,7 +63,7 @@ def judge(ctx, progs, rules=None, max_iter=2):
 
 def meta_property(ctx):
     """the TLC-checked soundness / exactness of the discipline on the bounded space of bodies"""
-    runs = ["NanoAffineMC_q3", "NanoAffineMC_q2"] if ctx.tier == "quick" else ["NanoAffineMC_t3", "NanoAffineMC_t2"]
+    runs = ["NanoAffineMC_q3", "NanoAffineMC_q2"] if ctx.tier == "quick" else ["NanoAffineMC_q3", "NanoAffineMC_q2", "NanoAffineMC_t2", "NanoAffineMC_t3p", "NanoAffineMC_t4"]
     tot = dict(states=0, transitions=0, runs=[])
     for name in runs:
         r = tlc(ctx, "NanoAffineMC", cfg=name, xss="512m", timeout=3000)
@@ -201,6 +201,8 @@ def run_affine(ctx):
     stats["mutants_run"] = len(used)
     results = dict(parallel_map(lambda mid: (mid, c05.run_tools(ctx, eng, "aff." + mid, pretty(used[mid]["prog"]))), list(used)))
     kf = [f for f in findings_for("C05") if f.get("component") == COMPONENT]
+    if os.environ.get("VERIF_C05A_ASSUME_FIXED"):        # developer switch: judge a tree as if the C05A findings were marked fixed
+        kf = []
     seen = set()
     for mid in sorted(results):
         res, m = results[mid], used[mid]
